@@ -38,6 +38,16 @@ def run(ctx):
     for c in ctx.concrete:
         if c.get("sub") == "c04" and " => " not in c["key"]:
             c["key"] = c["request"] + " => " + c["model"]
+    # machine states exhibiting each undeclared location (dumped by the child processes)
+    try:
+        wit = {w["id"]: w for w in json.load(open(os.path.join(ctx.dir, f"witnesses-{ctx.tier}.json")))}
+    except Exception:
+        wit = {}
+    for c in ctx.concrete:
+        w = wit.get(c["request"].split()[1]) if c.get("sub") == "c04" else None
+        if w:
+            c["instruction"] = w["asm"]
+            c["witness_states"] = w["witness"]
     # per finding class: count and example (evidence)
     classes = {}
     unknown = []
